@@ -55,7 +55,7 @@ def check(prop, tier, seed):
     for p, out, name, proto in procs:
         so, se = p.communicate(timeout=3000)
         if p.returncode != 0:
-            raise Infra("lifecycle driver failed on %s %s: %s" % (name, proto, se[-2000:]))
+            run.driver_failed("lifecycle driver failed on %s %s" % (name, proto), se)
         files.append(out)
     tr = run.path("lc-all.ndjson")
     with open(tr, "w") as o:
